@@ -724,6 +724,32 @@ def _type_established(fi, node):
     return False
 
 
+def _established_by_earlier_read(fi, node):
+    """an earlier statement of the function already read the same attribute off the same name inside
+    `try: ... except AttributeError: return/raise`: getting past it means the attribute is there"""
+    if not isinstance(node.value, ast.Name):
+        return False
+    base, attr = node.value.id, node.attr
+    top = node
+    while getattr(top, '_parent', None) is not None and getattr(top, '_parent') is not fi.node:
+        top = top._parent
+    body = fi.node.body
+    if top not in body:
+        return False
+    for s_ in body[:body.index(top)]:
+        if isinstance(s_, (ast.Assign, ast.AugAssign)) and any(isinstance(t, ast.Name) and t.id == base for t in ast.walk(s_) if isinstance(getattr(t, 'ctx', None), ast.Store)):
+            return False
+    for s_ in body[:body.index(top)]:
+        if isinstance(s_, ast.Try):
+            reads = [a for b in s_.body for a in ast.walk(b) if isinstance(a, ast.Attribute) and a.attr == attr and isinstance(a.value, ast.Name)
+                     and a.value.id == base and isinstance(a.ctx, ast.Load)]
+            for h in s_.handlers:
+                names = [norm(h.type)] if h.type is not None and not isinstance(h.type, ast.Tuple) else [norm(e) for e in getattr(h.type, 'elts', [])]
+                if reads and any(n_.split('.')[-1] in ('AttributeError', 'Exception') for n_ in names) and isinstance(h.body[-1], (ast.Return, ast.Raise)):
+                    return True
+    return False
+
+
 def rule_implicit_attribute_errors(check, rule):
     """C07.R4b: reading a special attribute (`__self__`, `__func__`, `__code__`, `__globals__`, `__name__`, `__wrapped__`, ...) off an
     object the package did not build raises AttributeError when the object lacks it.  With these reads as exception sources, the
@@ -755,6 +781,8 @@ def rule_implicit_attribute_errors(check, rule):
             st = site_of(x.func, x.node)
             if _type_established(x.func, x.node):
                 check.holds(rule, st, 'read of %s under a type test of the same expression' % norm(x.node)[:40], key=key)
+            elif _established_by_earlier_read(x.func, x.node):
+                check.holds(rule, st, 'read of %s after an earlier guarded read of the same attribute' % norm(x.node)[:40], key=key)
             elif x.origin in REVIEWED_IMPLICIT:
                 check.holds(rule, st, 'read of %s: reviewed (%s)' % (norm(x.node)[:40], REVIEWED_IMPLICIT[x.origin]), key=key)
             else:
